@@ -721,7 +721,15 @@ def _generate_color_font(config: FontConfig, inputs: Iterable[InputGlyph]):
     color_glyphs = []
     glyph_order = list(ufo.glyphOrder)
     assert glyph_order[0] == ".notdef"
+    input_glyph_names = set()
     for glyph_input in inputs:
+        # two inputs for one glyph would silently overwrite one another
+        if glyph_input.glyph_name in input_glyph_names:
+            raise ValueError(
+                f"Multiple inputs map to glyph {glyph_input.glyph_name}, "
+                f"including {glyph_input.svg_file or glyph_input.bitmap_file}"
+            )
+        input_glyph_names.add(glyph_input.glyph_name)
         if glyph_input.glyph_name in glyph_order:
             gid = glyph_order.index(glyph_input.glyph_name)
         else:
